@@ -182,6 +182,13 @@ where
 
         self.read_block()?;
 
+        // No frame follows `cpos` (e.g., when seeking to the end of the stream): discard the
+        // previously read block instead of rewinding it.
+        if self.position == cpos {
+            self.block = Block::default();
+            self.block.set_position(cpos);
+        }
+
         self.block.data_mut().set_position(usize::from(upos));
 
         Ok(pos)
